@@ -478,6 +478,13 @@ func (b Builder) BinOp(op token.Token, x, y Expr) Expr {
 				i := llvm.CreateBinOp(b.impl, llvm.FSub, xi, yi)
 				return b.aggregateValue(x.Type, r, i)
 			case token.MUL:
+				if b.Prog.SizeOf(x.Type) == 8 {
+					// complex64: like gc, compute the product in float64 and round once,
+					// to minimize cancellation error (and spurious overflow of the partial products).
+					x128 := b.Convert(b.Prog.Complex128(), x)
+					y128 := b.Convert(b.Prog.Complex128(), y)
+					return b.Convert(x.Type, b.BinOp(op, x128, y128))
+				}
 				r := llvm.CreateBinOp(b.impl, llvm.FSub,
 					llvm.CreateBinOp(b.impl, llvm.FMul, xr, yr),
 					llvm.CreateBinOp(b.impl, llvm.FMul, xi, yi),
